@@ -353,6 +353,10 @@ let run_case (x : sx) : Stdlib.String.t =
                   let fs = List.map fstep_of steps in
                   let ks = if List.exists is_filter steps then [] else List.map rstep_of steps in
                   let text = match getf "nodollar", getf "pad", ks with
+                    | [A "1"], _, _ when getf "keyf" <> [] ->
+                        (match fs with
+                         | FS (RPlain s0) :: rest -> fchain_fun_path0 s0 rest (List.map (function L l -> cp l | _ -> failwith "bad function name") (getf "keyf"))
+                         | _ -> failwith "a $-less path begins with a plain step")
                     | _, [A a; A b], _ when getf "keyf" <> [] ->
                         fpadded_fun_path (nat_of_int (int_of_string a)) (nat_of_int (int_of_string b)) fs
                           (List.map (function L l -> cp l | _ -> failwith "bad function name") (getf "keyf"))
